@@ -15,6 +15,9 @@ ShapesFull  == {<<0, 0>>, <<1, 0>>, <<1, 1>>, <<2, 0>>, <<2, 1>>, <<2, 2>>}
 ShapesOne   == {<<1, 0>>, <<2, 1>>}
 XKsAll   == {"scalar", "tuple", "dict", "none", "str"}
 XKsQuick == {"scalar", "tuple", "dict"}
+(* feature values of dense examples: all distinct, or drawn from the label alphabet (a feature may equal the label) *)
+FeatValsAll == {"distinct", "label"}
+FeatValsOld == {"distinct"}
 (* the reads performed on one simulation object: first, second, one abandoned after the first interaction, one after that *)
 PlanAll == <<"full", "full", "abandon", "full">>
 =============================================================================
